@@ -17,13 +17,13 @@ CHECKS = {
       text="icao body proved against the Annex 10 contract (AA upper-case for DF11/17/18, parity xor AP for DF0/4/5/16/20/21, None otherwise) for every frame and every letter-case assignment; transponder-side round trips for all 2^24 addresses and payloads; adsb.icao / allcall.icao wrappers.",
       ref="DESIGN.md section 5 C02"),
  "C03": dict(cat="proof", tech=TECH % "z3 / cvc5 over linear mixed integer-real arithmetic, one VC per NL band (59) x band offset x time order x argument order",
-      text="The real airborne_position body is symbolically executed on frames produced by the DO-260B encoder (spec/cpr_spec.py) from two real positions up to 3 NM apart in latitude and 1 NM in longitude; per NL band the VC 'result == the newer frame's encoded (Rlat, Rlon mod 360); None iff the bands differ' is discharged over the reals; cprNL is replaced by its contract NL (proved in C06, with the grid-margin lemma); position() dispatch against opaque callee contracts. Quick explores 10 of the 59 bands, thorough all.",
+      text="The real airborne_position body is symbolically executed on frames produced by the DO-260B encoder (spec/cpr_spec.py) from two real positions up to 3 NM apart in latitude and 1 NM in longitude; per NL band the VC 'result within one quantisation step of the true position fed to the encoder for the newer frame (longitude modulo 360); None iff the bands differ' is discharged over the reals; cprNL is replaced by its contract NL (proved in C06, with the grid-margin lemma); position() dispatch against opaque callee contracts. Quick explores 10 of the 59 bands, thorough all.",
       ref="DESIGN.md section 5 C03", note=NOTE + " Floats as reals (A2): binary64 rounding inside the decoder is outside the proof; the native cross-check samples it."),
  "C04": dict(cat="proof", tech=TECH % "z3 over linear mixed integer-real arithmetic, one VC per NL band x parity x airborne/surface",
-      text="airborne_position_with_ref and surface_position_with_ref are proved to return exactly the encoder's (Rlat, Rlon) for every reference inside the closed half-zone box (minus one quantisation step), hence independently of the reference; position_with_ref dispatch by type code.",
+      text="airborne_position_with_ref and surface_position_with_ref are proved to return a position within one quantisation step of the true position fed to the DO-260B encoder (longitude modulo 360) for every reference inside the closed half-zone box (minus one quantisation step), and the same result for a second, independent reference in that box; position_with_ref dispatch by type code.",
       ref="DESIGN.md section 5 C04", note=NOTE + " Floats as reals (A2)."),
  "C05": dict(cat="proof", tech=TECH % "z3 / cvc5 over linear mixed integer-real arithmetic, one VC per NL band x band offset x time order x longitude wrap",
-      text="surface_position (after the fix of the equator / antimeridian defect F9) is proved to return the newer frame's encoded position for every receiver within 0.74 degree of latitude and 45 NM / 44 degrees of longitude, in any 360-degree representation of the receiver longitude, for pairs up to 0.7 NM apart; None iff the NL bands differ. Quick explores 5 of the 59 bands, thorough all.",
+      text="surface_position (after the fix of the equator / antimeridian defect F9) is proved to return a position within one quantisation step of the newer frame's true position (longitude modulo 360) for every receiver within 0.74 degree of latitude and 45 NM / 44 degrees of longitude, in any 360-degree representation of the receiver longitude, for pairs up to 0.7 NM apart; None iff the NL bands differ. Quick explores 4 of the 59 bands, thorough all.",
       ref="DESIGN.md section 5 C05", note=NOTE + " Floats as reals (A2)."),
  "C06": dict(cat="proof", tech=TECH % "z3 over the reals (threshold tests) and interval branch-and-bound with a binary64 rounding model (closed form, 58 bands and 57 transition windows)",
       text="cprNL's body is symbolically executed; the isclose/87-degree tests are decided by z3 against the DO-260B staircase (40-digit rational transition table), the closed form floor(2pi/arccos(...)) by rigorous interval B&B on every band interior and inside every 1e-9 window; evenness by z3; the sub-band 1e-8..1e-4 degree next to the equator is only checked natively (bounded) because no rounding model can decide floor() there.",
@@ -55,11 +55,11 @@ CHECKS = {
  "C15": dict(cat="proof", tech=TECH % "GF(2)-affine normal forms, z3, interval B&B - on a mechanical Python translation of c_common.pyx regenerated on every run",
       text="Every function of c_common.pyx is translated mechanically (vc/pyx2py.py: cdef/cpdef headers, typed locals, memoryviews, casts, C-API length macros; bytes as lists of character codes) and proved against the same functional contract as its py_common twin, modulo the documented sentinels; hence both modules agree on the common domain. crc / hex2bin / bin2int / hex2int are decided in the affine bit domain, cprNL by z3 + interval B&B. bds05.altitude is re-verified with pyModeS.common bound to the C module (known finding F13). The Cython compiler, C integer widths and the compiled extension are outside the proof (A4).",
       ref="DESIGN.md section 5 C15", note=NOTE + " A4: the .pyx subset means what vc/pyx2py.py says; Cython / C tool-chain and the pre-built .so are not in the loop (Cython is not installed, the extension cannot be rebuilt from a modified .pyx)."),
- "C16": dict(cat="other", tech="bounded native enumeration of stream segmentations against reference framers (labelled bounded) + deductive VCs (z3 / affine forms) for NetSource.handle_messages",
-      text="Chunk-independence of the raw, Beast and Skysense framers is a whole-history property: the real read_*_buffer methods are run natively on sampled multi-frame streams (0x1A anywhere) under every single and double cut and random multi-cuts and compared with whole-stream reference parsers (spec/framing_spec.py) - bounded, never counted as proved. The forwarding clause (every long DF17/18 and DF20/21 message reaches the pipe exactly once, in order, across two calls) is proved deductively for four messages of arbitrary content. Known finding F11 (Beast remainder / trailing 0x1A) is excluded by its region.",
+ "C16": dict(cat="other", tech="deductive VCs (z3 / affine forms) for the AVR raw framer as a fold of a per-byte transition and for NetSource.handle_messages + bounded native enumeration of stream segmentations against reference framers (labelled bounded; the only coverage of the Beast and Skysense framers)",
+      text="AVR raw framer: for every framer state and every byte value one call of the real read_raw_buffer on a 1-byte buffer equals the per-byte transition raw_step, a read of 2 or 3 arbitrary bytes is the composition of the transitions with all state in (current_msg, msg_stop), and feeding the bytes one read at a time gives the same messages and state - chunk independence for streams of any length follows by associativity of folds (argued, not machine-checked). NetSource.handle_messages is proved to forward every long DF17/18 and DF20/21 message exactly once and in order across two calls (four symbolic messages, any split). All three framers (raw, Beast, Skysense) are additionally run natively on sampled multi-frame streams (0x1A anywhere) under every single and double cut and random multi-cuts and compared with whole-stream reference parsers: bounded, and the only coverage of the Beast and Skysense framers. Known finding F11 (Beast reader, read ending after 0x1A) is listed.",
       ref="DESIGN.md section 5 C16"),
- "C17": dict(cat="other", tech="contract-based deductive verification of Decode.process_raw for histories of up to three messages (z3, abstract callee contracts) + bounded trajectory simulation for the accuracy clause",
-      text="process_raw is symbolically executed from a fresh table on every pair of DF17 type codes (all other bits, letter case and timestamps symbolic) and on a DF17 message followed by a Comm-B reply of each inference class: never raises, keys are canonical, listed within 59 s / absent after 61 s, Comm-B attaches only to known addresses in any letter case. Callees are taken by contract (position decoders, infer, callsign abstractly). An induction step from an arbitrary table and the 0.001-degree accuracy clause are not discharged deductively; the latter is simulated (bounded).",
+ "C17": dict(cat="other", tech="contract-based deductive verification of Decode.process_raw by induction over the history (record invariant: base + one-call step from an arbitrary record; z3, abstract callee contracts) + bounded trajectory simulation for the end-to-end accuracy clause",
+      text="Induction over the message history with a record invariant: base (the first message of an aircraft, every type code, creates a record inside the invariant) and step (from an arbitrary record inside the invariant - case split over every optional key process_raw reads, symbolic times / position / stored frames - one more DF17 message of every type code and parity, or a Comm-B reply of each inference class, known or unknown address, either letter case): never raises, invariant preserved, keys canonical, sender listed within 59 s / absent after 61 s, bystander kept exactly while tnow - live <= 60, Comm-B never creates a record; plus the plumbing of the accuracy clause (a stored position is position_with_ref(this message, fix younger than 180 s) or position(even, odd) with this message as the newer of a pair less than 10 s apart). Callees enter by abstract contracts whose exact versions are discharged in C03-C05, C10, C12. Not machine-checked: the induction principle itself and the kinematic side conditions; the end-to-end 0.001-degree clause is simulated (bounded).",
       ref="DESIGN.md section 5 C17"),
  "C18": dict(cat="proof", tech=TECH % "GF(2)-affine normal forms (uplink_icao) and z3 (fields)",
       text="uplink_icao is proved to return A for every frame data || parity(data) xor top24(A x G) (all 2^24 addresses, all payloads, both lengths) by comparing affine normal forms generated from the real bit-serial loop; uf/bds/pr/ic/lockout are proved against Annex 10 field positions for every frame; uplink_fields() agrees with them wherever they are not None.",
